@@ -313,7 +313,6 @@ class BOCD(BaseChangeDetection):
 
     def _update(self, value: Union[int, float], **kwargs: Any) -> None:
         self.num_instances += 1
-        current_idx = self.num_instances - 1
 
         # 3. Evaluate predictive probabilities.
         log_pis = self._model.log_pred_prob(
@@ -358,12 +357,12 @@ class BOCD(BaseChangeDetection):
         self.log_message = new_log_joint
 
         # 9. Perform prediction.
-        probs = np.exp(self.log_r[current_idx, : self.num_instances])
+        probs = np.exp(self.log_r[self.num_instances, : self.num_instances + 1])
         self.predicted_mean = np.sum(
-            probs * self._model.mean_params[: self.num_instances]
+            probs * self._model.mean_params[: self.num_instances + 1]
         )
         self.predicted_var = np.sum(
-            probs * self._model.var_params[: self.num_instances]
+            probs * self._model.var_params[: self.num_instances + 1]
         )
 
         if self.num_instances >= self.config.min_num_instances:
